@@ -378,7 +378,10 @@ def sub_cases():
         neg = G(rep[2][0], -rep[2][1], rep[2][2])     # feed -Q so that the expected value is that of P + Q
         out.append(Case(c.name, [c.args[0], neg], c.setup, c.aux))
     return out
-add('groups::sub', r'<impl>::sub$', r'^\(G<P>, G<P>\) -> G<P>$', sub_cases, add_post, ('C04',))
+def sub_post(case, st, ret, interp):
+    # the property fixes the denoted point of A - B, not its representative (no caller relies on one)
+    return denotes(st, unref(interp, st, ret), expected_sum(case.aux))
+add('groups::sub', r'<impl>::sub$', r'^\(G<P>, G<P>\) -> G<P>$', sub_cases, sub_post, ('C04',))
 
 # neg
 def neg_cases():
@@ -425,7 +428,7 @@ add('groups::add_assign_ref', r'<impl>::add_assign$', r'^\(&mut G<P>, &G<P>\)', 
 # zero / is_zero
 def zero_post(case, st, ret, interp):
     X, Y, Z = ret[2]
-    return [('post', [X, Y - 1, Z])]
+    return [('denotes_identity', [Z]), ('exact_identity_0_1_0', [X, Y - 1, Z])]
 add('groups::zero', r'<impl>::zero$', r'^\(\) -> G<P>$', lambda: [Case('all', [])], zero_post, ('C04', 'C15'))
 def isz_cases():
     out = []
